@@ -63,17 +63,26 @@ def main():
 
     from pyvc import api, loader, report
 
+    load_error = None
     try:
         loader.install()
         # contracts first: loop contracts must be registered before the osyris modules are read
         mod = importlib.import_module("contracts.%s" % prop.lower())
-        loader.load("osyris")  # import once in the parent; workers are forked from it
     except Exception:
         traceback.print_exc()
         print("CHECKER-ERROR property=%s cannot load contracts" % prop)
         return 3
+    try:
+        loader.load("osyris")  # import once in the parent; workers are forked from it
+    except Exception as e:
+        # the working tree cannot be loaded under the stubs (e.g. it uses a library entry that has no
+        # assumed contract): every deductive unit is undecided; the bounded stand-ins still decide
+        load_error = "symbolic load of the working tree failed: %r" % (e,)
+        print("UNDECIDED property=%s reason=%s" % (prop, load_error[:300]))
 
     idx = [i for i, u in enumerate(api.UNITS) if u.prop == prop and (not args.only or args.only in u.full)]
+    if load_error:
+        idx = []
     _worker.index = idx
     results = []
     if idx:
@@ -103,6 +112,10 @@ def main():
         r["wall"] = round(time.time() - t0, 2)
         extra.append(r)
 
+    if load_error:
+        results.append({"unit": "%s.symbolic_load" % prop, "prop": prop, "obligations": [], "errors": [load_error], "paths": 0,
+                        "targets": [], "uses": [], "case": "", "covers": {}, "time": 0, "solver_time": 0, "cut": 0,
+                        "infeasible": 0, "raised": {}, "notes": [], "name": "load", "inline": [], "index": -1})
     rc = report.finish(prop, tier, seed, mod, results, extra, t_start, verbose=args.v)
     return rc
 
